@@ -394,6 +394,11 @@ func cleanupNewRing(newRing [][2]float64, isOuter bool, hitMultiple map[intgeom.
 	// deduplicate points in the ring
 	newRing = kmpDeduplicate(newRing)
 	newRingLen = len(newRing)
+	// deduping can leave the first point at the end again
+	for newRingLen > 1 && newRing[0] == newRing[newRingLen-1] {
+		newRing = newRing[:newRingLen-1]
+		newRingLen--
+	}
 	// again filter out too small rings, after deduping
 	if newRingLen < 3 {
 		return nil, nil, asPointOrLine(newRing)
